@@ -5,7 +5,7 @@ cd /verif
 d=$(realpath "$1"); shift
 clone=$(mktemp -d /tmp/seedrepo_XXXXXX)
 git clone -q /repo "$clone" || exit 2
-if ! git -C "$clone" apply "$d/patch.diff"; then echo "patch does not apply: $d"; rm -rf "$clone"; exit 2; fi
+if ! git -C "$clone" apply "$d/patch.diff" 2>/dev/null; then echo "patch does not apply: $d"; rm -rf "$clone"; exit 2; fi
 for p in "$@"; do
   out=$(VERIF_EVIDENCE_DIR="$clone/.evidence" BITS_REPO="$clone" timeout 3000 ./check "$p" --tier "${TIER:-quick}" 2>&1); rc=$?
   v=$(echo "$out" | grep -c '^VIOLATION')
